@@ -6,6 +6,12 @@
   memRevalidation / pickleRevalidation
                             the two comparisons of parso's cache.py (the dependency as installed):
                             `p_time <= module_cache_item.change_time`, `p_time > os.path.getmtime(cache_path)`
+  cfg.stubListingCached     typeshed._create_stub_map / _merge_create_stub_map (the os.listdir based map
+                            "name -> .pyi" that _load_from_typeshed builds for the directory of a *project
+                            package* on every sub-module import) carry a memoising decorator
+                            (functools.lru_cache / cache, jedi's own *cache* decorators).  No decorator:
+                            false.  Props/C09 `stub_listing_fresh` is proved from `cfg.stubListingCached = false`,
+                            so adding such a decorator breaks the build.
 """
 import ast
 import importlib.util
@@ -50,10 +56,13 @@ def generate(repo, g):
         per_script = False
     else:
         raise TieBroken('InferenceState.__init__: self.module_cache =', repr(mc))
+    typeshed = Src(repo, 'jedi/inference/gradual/typeshed.py')
+    listing_cached = _stub_listing_cached(typeshed)
     g.define('cfg', 'JediModel.DiskCache.Cfg',
-             '{ cache := %s, diff := %s, modCachePerScript := %s }' % (
-                 lean_bool(cache), lean_bool(diff), lean_bool(per_script)),
-             'imports._load_python_module, InferenceState.__init__, Script.__init__, settings.fast_parser')
+             '{ cache := %s, diff := %s, modCachePerScript := %s, stubListingCached := %s }' % (
+                 lean_bool(cache), lean_bool(diff), lean_bool(per_script), lean_bool(listing_cached)),
+             'imports._load_python_module, InferenceState.__init__, Script.__init__, settings.fast_parser, '
+             'typeshed._create_stub_map/_merge_create_stub_map decorators')
     g.lines.insert(1, 'import JediModel.Model.DiskCache')
 
     # ---- the dependency: parso's revalidation predicates (as installed; not part of /repo)
@@ -80,6 +89,46 @@ def generate(repo, g):
     for s, d in [(imports, '_load_python_module'), (imports, 'import_module'), (imports, 'import_module_by_names'),
                  (imports, 'ModuleCache'), (inf, 'InferenceState.__init__'), (inf, 'InferenceState.parse_and_get_code')]:
         g.fp(s, d)
+    for d in ['_create_stub_map', '_merge_create_stub_map', '_load_from_typeshed', '_try_to_load_stub',
+              '_try_to_load_stub_from_file', 'parse_stub_module', 'try_to_load_stub_cached']:
+        g.fp(typeshed, d)
     fns = Src(repo, 'jedi/inference/compiled/subprocess/functions.py')
     for d in ['get_module_info', '_find_module', '_find_module_py33', '_from_loader']:
         g.fp(fns, d)
+
+
+_MEMO_WORDS = ('cache', 'memo')
+
+
+def _stub_listing_cached(typeshed):
+    """the shape of the stub-directory-listing layer:
+      _load_from_typeshed: `map_ = _merge_create_stub_map([PathInfo(p, ...) for p in paths])` in the
+          sub-module branch (a fresh call per lookup, not a module-level table),
+      _merge_create_stub_map: `map_.update(_create_stub_map(directory_path_info))`,
+      _create_stub_map: calls os.listdir itself.
+    Returns whether one of the two functions is memoised by a decorator."""
+    lft = typeshed.find('_load_from_typeshed')
+    merge = typeshed.find('_merge_create_stub_map')
+    create = typeshed.find('_create_stub_map')
+    calls = [n for n in ast.walk(lft) if isinstance(n, ast.Call) and u(n.func) == '_merge_create_stub_map']
+    if len(calls) != 1 or 'py__path__' not in u(lft) or 'PathInfo(p' not in u(calls[0]):
+        raise TieBroken('typeshed._load_from_typeshed: _merge_create_stub_map call for the package paths',
+                        repr([u(c) for c in calls]))
+    if not any(isinstance(n, ast.Call) and u(n.func) == '_create_stub_map' for n in ast.walk(merge)):
+        raise TieBroken('typeshed._merge_create_stub_map: no call of _create_stub_map')
+    if not any(isinstance(n, ast.Call) and u(n.func) == 'os.listdir' for n in ast.walk(create)):
+        raise TieBroken('typeshed._create_stub_map: no os.listdir call')
+    cached = False
+    for fn in (merge, create):
+        for dec in fn.decorator_list:
+            text = u(dec).lower()
+            if any(w in text for w in _MEMO_WORDS):
+                cached = True
+            else:
+                raise TieBroken('typeshed.%s: unknown decorator' % fn.name, u(dec))
+    # a hand-written memo: the function consults / fills a module-level table
+    for fn in (merge, create):
+        for n in ast.walk(fn):
+            if isinstance(n, ast.Global):
+                raise TieBroken('typeshed.%s: global statement (hand-written memo?)' % fn.name, u(n))
+    return cached
